@@ -55,7 +55,8 @@ def ori(G, qs, shape=None):
     q = np.asarray(qs, float)
     if shape is not None:
         q = q.reshape(tuple(shape) + (4,))
-    return Orientation(q, symmetry=G)
+    # the values in a memory layout chosen by the data themselves (C / Fortran / strided view / read-only / negative stride)
+    return Orientation(common.relayout(q, int(abs(float(q.reshape(-1)[0])) * 1e6) if q.size else 0), symmetry=G)
 
 
 def rot_line(G):
